@@ -1,15 +1,27 @@
 //! linesdump: observer of the real position mapping (property C10).
 //! stdin: JSON array of strings, each `olo ohi llo lhi clo chi rg;TEXT` (header, first ';', then the text verbatim;
 //! rg = 1: also the two range sections, rg = 0: they stay empty).
-//! stdout: JSON array of strings, one per case, four sections separated by '|' (same format as
+//! stdout: JSON array of strings, one per case, six sections separated by '|' (same format as
 //! `lines_run impl` of the Coq model):
 //!   lsp::to_proto::position   for every byte offset o in olo..=ohi (boundary or not)  -> `l:c` or `!` (panic)
 //!   lsp::from_proto::position for l in llo..=lhi, c in clo..=chi                      -> `o`   or `!`
 //!   lsp::to_proto::range      for a in olo..=ohi, b in a..=min(a+2, ohi)              -> `l:c-l:c` or `!`
 //!   lsp::from_proto::range    for consecutive positions P[k], P[k+1] of that enumeration, both orders -> `a-b` or `!`
+//!   lsp::to_proto::folding_range for the same (a, b) as to_proto::range               -> `startline-endline` or `!`
+//!   wrappers for the same (a, b): `=` when to_proto::{inlay_hint, location, diagnostic, document_link,
+//!   document_symbol (range, selection_range, and those of a child)} give exactly what position / range give,
+//!   else the name of the first one that differs
 //! `!new` when LineIndex::new itself panics.  Every call is guarded separately (catch_unwind).
 use async_lsp::lsp_types::{Position, Range};
+use ide::file_system::{FilePath, FileRange, FileSystem};
+use ide::handlers::diagnostics::Diagnostic;
+use ide::handlers::document_link::DocumentLink;
+use ide::handlers::document_symbol::{DocumentSymbol, DocumentSymbolKind};
+use ide::handlers::folding_range::FoldingRange;
+use ide::handlers::inlay_hint::{InlayHint, InlayHintKind};
 use ide::line_index::LineIndex;
+use lsp::vfs::Vfs;
+use std::path::PathBuf;
 use std::fmt::Write;
 use std::panic::AssertUnwindSafe;
 use text_size::{TextRange, TextSize};
@@ -79,6 +91,100 @@ fn run(case: &str) -> String {
             );
             sep = " ";
         }
+    }
+    out.push('|');
+    sep = "";
+    // to_proto::folding_range: start_line-end_line
+    let pairs: Vec<(u32, u32)> = (olo..=ohi)
+        .filter(|_| rg)
+        .flat_map(|a| (a..=ohi.min(a.saturating_add(2))).map(move |b| (a, b)))
+        .collect();
+    for &(a, b) in &pairs {
+        let r = vharness::guarded(|| {
+            lsp::to_proto::folding_range(
+                &li,
+                FoldingRange { range: TextRange::new(TextSize::from(a), TextSize::from(b)) },
+            )
+        });
+        let _ = write!(
+            out,
+            "{}{}",
+            sep,
+            r.map(|r| format!("{}-{}", r.start_line, r.end_line)).unwrap_or_else(|_| "!".into())
+        );
+        sep = " ";
+    }
+    out.push('|');
+    sep = "";
+    // the other converters of to_proto.rs against position / range ("=": every one gives what position / range give)
+    let mut vfs = Vfs::new();
+    let fid = vfs.assign_or_get_file_id(FilePath(PathBuf::from("/verif-lines.td")));
+    let vfs = AssertUnwindSafe(&vfs);
+    for &(a, b) in &pairs {
+        let tr = TextRange::new(TextSize::from(a), TextSize::from(b));
+        let show_r = |r: Result<Range, String>| {
+            r.map(|r| format!("{}-{}", show(&r.start), show(&r.end))).unwrap_or_else(|_| "!".into())
+        };
+        let base = show_r(vharness::guarded(|| lsp::to_proto::range(&li, tr)));
+        let basep = vharness::guarded(|| lsp::to_proto::position(&li, TextSize::from(a)))
+            .map(|p| show(&p))
+            .unwrap_or_else(|_| "!".into());
+        let hint = vharness::guarded(|| {
+            lsp::to_proto::inlay_hint(
+                &li,
+                InlayHint { position: TextSize::from(a), label: "x".into(), kind: InlayHintKind::TemplateArg },
+            )
+            .position
+        })
+        .map(|p| show(&p))
+        .unwrap_or_else(|_| "!".into());
+        let loc = show_r(vharness::guarded(|| lsp::to_proto::location(&vfs, &li, FileRange::new(fid, tr)).range));
+        let diag = show_r(vharness::guarded(|| {
+            lsp::to_proto::diagnostic(&li, Diagnostic::new(FileRange::new(fid, tr), "m")).range
+        }));
+        let link = show_r(vharness::guarded(|| {
+            lsp::to_proto::document_link(&vfs, &li, DocumentLink { range: tr, target: fid }).range
+        }));
+        let sym = vharness::guarded(|| {
+            let child = DocumentSymbol {
+                name: "c".into(),
+                typ: "t".into(),
+                range: tr,
+                kind: DocumentSymbolKind::Field,
+                children: vec![],
+            };
+            let s = lsp::to_proto::document_symbol(
+                &li,
+                DocumentSymbol {
+                    name: "p".into(),
+                    typ: "t".into(),
+                    range: tr,
+                    kind: DocumentSymbolKind::Class,
+                    children: vec![child],
+                },
+            );
+            let c = &s.children.as_ref().expect("one child")[0];
+            (s.range, s.selection_range, c.range, c.selection_range)
+        });
+        let sym_ok = match &sym {
+            Ok((r1, r2, r3, r4)) => [r1, r2, r3, r4].iter().all(|r| show_r(Ok(**r)) == base),
+            Err(_) => base == "!",
+        };
+        let w = if hint != basep {
+            "inlay_hint"
+        } else if loc != base {
+            "location"
+        } else if diag != base {
+            "diagnostic"
+        } else if link != base {
+            "document_link"
+        } else if !sym_ok {
+            "document_symbol"
+        } else {
+            "="
+        };
+        let _ = write!(out, "{}{}", sep, w);
+        sep = " ";
     }
     out
 }
